@@ -22,8 +22,8 @@ P = "partitura.performance"
 
 
 def run(ctx):
-    from ..rules import generic as _G11
-    _G11.rule_F11(ctx, ['partitura.performance'], 'C14')
+    from ..rules import extra as _X3
+    _X3.rule_validators_accept_valid(ctx)
     w = world(ctx)
     prog = ctx.prog
     # ---- MUSTCALL
